@@ -47,7 +47,6 @@ VARIABLES pulled,   \* pulled[t]: tokens the lexer has produced (n+1 = it has re
           filling   \* filling[t]: raw symbol thread t is in the middle of inserting (SharedCache only)
 vars == <<pulled, driven, toks, acc, result, cache, filling>>
 
-N(t) == Len(Input[t])
 CacheOf(t) == IF SharedCache THEN "shared" ELSE t
 CacheIds == IF SharedCache THEN {"shared"} ELSE Threads
 
@@ -60,15 +59,18 @@ Init == /\ pulled = [t \in Threads |-> 0]
         /\ filling = [t \in Threads |-> "none"]
 
 Max(a, b) == IF a > b THEN a ELSE b
-LexEnabled(t) == pulled[t] <= N(t) /\ driven[t] = Max(0, pulled[t] - 1) /\ result[t] = -1
+
+(* The steps of thread t parsing the input `inp` (a parameter, so that the  *)
+(* trace specification can use the same actions with recorded inputs).      *)
+LexEnabled(t, inp) == pulled[t] <= Len(inp) /\ driven[t] = Max(0, pulled[t] - 1) /\ result[t] = -1
 
 (* the lexer produces token number pulled[t]+1 (or the end of input) *)
-Lex(t) ==
-    /\ LexEnabled(t) /\ filling[t] = "none"
-    /\ IF pulled[t] = N(t)
+LexOn(t, inp) ==
+    /\ LexEnabled(t, inp) /\ filling[t] = "none"
+    /\ IF pulled[t] = Len(inp)
        THEN /\ pulled' = [pulled EXCEPT ![t] = @ + 1]          \* end of input
             /\ UNCHANGED <<toks, cache, filling>>
-       ELSE LET r == Input[t][pulled[t] + 1]  c == CacheOf(t) IN
+       ELSE LET r == inp[pulled[t] + 1]  c == CacheOf(t) IN
             IF cache[c][r] = "none"
             THEN IF SharedCache
                  THEN /\ cache' = [cache EXCEPT ![c][r] = "filling"]      \* wrong design: visible half-way
@@ -93,16 +95,21 @@ LexFill(t) ==
     /\ UNCHANGED <<driven, acc, result>>
 
 (* the driver folds token driven[t]+1; it has seen its lookahead *)
-Drive(t) ==
-    /\ driven[t] < N(t) /\ pulled[t] = driven[t] + 2 /\ result[t] = -1
+DriveOn(t, inp) ==
+    /\ driven[t] < Len(inp) /\ pulled[t] = driven[t] + 2 /\ result[t] = -1
     /\ acc' = [acc EXCEPT ![t] = Fold(@, toks[t][driven[t] + 1])]
     /\ driven' = [driven EXCEPT ![t] = @ + 1]
     /\ UNCHANGED <<pulled, toks, result, cache, filling>>
 
-Finish(t) ==
-    /\ pulled[t] = N(t) + 1 /\ driven[t] = N(t) /\ result[t] = -1
+FinishOn(t, inp) ==
+    /\ pulled[t] = Len(inp) + 1 /\ driven[t] = Len(inp) /\ result[t] = -1
     /\ result' = [result EXCEPT ![t] = acc[t]]
     /\ UNCHANGED <<pulled, driven, toks, acc, cache, filling>>
+
+N(t) == Len(Input[t])
+Lex(t) == LexOn(t, Input[t])
+Drive(t) == DriveOn(t, Input[t])
+Finish(t) == FinishOn(t, Input[t])
 
 Step(t) == Lex(t) \/ LexFill(t) \/ Drive(t) \/ Finish(t)
 Next == \E t \in Threads : Step(t)
